@@ -572,7 +572,7 @@ func c05Spaces(c *fw.Ctx) {
 			}
 		})
 
-	c.Space("type-codes", "all 65536 type codes: the numeric spelling TYPEnnn and, where the library has one, the mnemonic denote the same code; an unknown type prints as TYPEnnn with \\# rdata and re-parses to the same octets; every registered type written in the RFC 3597 generic form (\\# len hex of its default RDATA) parses to the same record as its typed form; non-trivial: the code has a mnemonic", true,
+	c.Space("type-codes", "all 65536 type codes: the numeric spelling TYPEnnn and, where the library has one, the mnemonic denote the same code; an unknown type prints as TYPEnnn with \\# rdata and re-parses to the same octets; every registered type written in the RFC 3597 generic form (\\# len hex of its default RDATA, also in upper-case hex digits split into two words) parses to the same record as its typed form; non-trivial: the code has a mnemonic", true,
 		func(emit func(func(*fw.R))) {
 			for code := 0; code < 65536; code++ {
 				t := uint16(code)
@@ -601,12 +601,24 @@ func c05Spaces(c *fw.Ctx) {
 					} else {
 						rd = []byte{1, 2, 3, byte(t)}
 					}
+					if s == nil && t%251 == 0 {
+						rd = []byte{0x0a, 0xbc, 0xde, 0xf0 | byte(t&7)} // hex digits a-f among the data
+					}
 					want, _ := wire.EncodeRR(nil, &wire.RR{Name: enum.Names[0], Type: t, Class: 1, TTL: 7, Raw: rd, Generic: true})
-					for _, spell := range []string{num, mn} {
+					for si, spell := range []string{num, mn, num} {
 						if spell == "" {
 							continue
 						}
 						line := fmt.Sprintf("host.example. 7 IN %s \\# %d %x", spell, len(rd), rd)
+						if si == 2 {
+							// the same data in upper-case hex digits and cut into two words (RFC 3597 §5 allows white space
+							// inside the hex; BIND and dig print upper case)
+							h := strings.ToUpper(fmt.Sprintf("%x", rd))
+							if len(h) < 4 || h == strings.ToLower(h) {
+								continue
+							}
+							line = fmt.Sprintf("host.example. 7 IN %s \\# %d %s %s", spell, len(rd), h[:2], h[2:])
+						}
 						rr, err := dns.NewRR(line)
 						if err != nil || rr == nil {
 							if spell == "None" || spell == "Reserved" {
